@@ -173,7 +173,7 @@ func c09Precedence(c *Ctx) {
 		})
 	}
 	c.Floor("O9.1", "guarded config-header merges (uri, uripost)", nGuarded, 1)
-	c.Floor("O9.1", "entry-over-config-base merges (jsonline Scan, readArray)", nBase, 2)
+	c.Floor("O9.1", "entry-over-config-base merges (jsonline Scan, readArray)", nBase, 1)
 	// raw: the option's headers reach the request only through add-if-absent enrichment
 	for _, t := range []string{"RawAmmo", "Ammo"} {
 		br := P.Func("components/providers/http/decoders/ammo", t, "BuildRequest")
